@@ -1,6 +1,7 @@
 import LivesimVerif.Model.ChunkParser
 import LivesimVerif.Model.Limiter
 import Driver.Util
+import Driver.Recv
 /-! Line-protocol driver: one operation per input line, one canonical result per output line. -/
 open Drv
 
@@ -58,6 +59,9 @@ def step (line : String) : String :=
   match (line.trimAscii.toString.splitOn " ").filter (· ≠ "") with
   | "parse" :: args => opParse args
   | "lim" :: args => opLim args
+  | "ctr" :: args => opCtr args
+  | "buf" :: args => opBuf args
+  | "gen" :: args => opGen args
   | _ => "bad-op"
 
 partial def loop (h : IO.FS.Stream) (out : IO.FS.Stream) : IO Unit := do
